@@ -43,6 +43,11 @@ pub struct FileCfg {
     pub seed: u64,
     pub mode: Option<u16>, // explicit raw mode; None = inherit from the source file (0o100644 / 0o100755)
     pub src_exec: bool,
+    /// setuid / setgid / sticky bits on the source file (inherited when no mode is given)
+    pub src_special: u32,
+    /// the mode handed over as an i32 outside the 16-bit range (the builder accepts it; header and archive record its
+    /// low 16 bits)
+    pub mode_wide: Option<i32>,
     pub user: Option<String>,
     pub group: Option<String>,
     pub flags: Vec<&'static str>,
@@ -153,7 +158,7 @@ impl Workdir {
         use std::os::unix::fs::PermissionsExt;
         let p = self.dir.join(format!("src_{idx}"));
         std::fs::write(&p, content(f.len, f.compressible, f.seed)).unwrap();
-        std::fs::set_permissions(&p, std::fs::Permissions::from_mode(if f.src_exec { 0o755 } else { 0o644 })).unwrap();
+        std::fs::set_permissions(&p, std::fs::Permissions::from_mode(src_perm(f))).unwrap();
         let fh = std::fs::File::options().write(true).open(&p).unwrap();
         fh.set_modified(std::time::UNIX_EPOCH + std::time::Duration::from_secs(f.mtime as u64)).unwrap();
         p
@@ -165,9 +170,24 @@ impl Drop for Workdir {
     }
 }
 
+/// permission bits of the source file
+pub fn src_perm(f: &FileCfg) -> u32 {
+    (if f.src_exec { 0o755 } else { 0o644 }) | f.src_special
+}
+/// the mode that must be read back for the file
+pub fn expected_mode(f: &FileCfg) -> u32 {
+    match (f.mode_wide, f.mode) {
+        (Some(w), _) => (w as u32) & 0xFFFF,
+        (None, Some(m)) => m as u32,
+        (None, None) => 0o100000 | src_perm(f),
+    }
+}
+
 pub fn file_options(f: &FileCfg) -> Result<FileOptions, rpm::Error> {
     let mut o = FileOptions::new(f.dest.clone());
-    if let Some(m) = f.mode {
+    if let Some(w) = f.mode_wide {
+        o = o.mode(w);
+    } else if let Some(m) = f.mode {
         o = o.mode(FileMode::from(m));
     }
     if let Some(u) = &f.user {
@@ -374,6 +394,8 @@ pub fn rand_file(rng: &mut Rng, used: &mut Vec<String>, max_len: usize) -> FileC
         seed: rng.next(),
         mode,
         src_exec: rng.chance(1, 3),
+        src_special: if rng.chance(1, 6) { *rng.pick(&[0o4000u32, 0o2000, 0o1000, 0o6000]) } else { 0 },
+        mode_wide: if kind >= 7 && rng.chance(1, 12) { Some(*rng.pick(&[0o1100644i32, 0o200000 | 0o100600, 65536 + 0o100755])) } else { None },
         user: if rng.chance(1, 3) { Some(rng.pick(&["alice", "bob", "carol", "dave", "root", "eve"]).to_string()) } else { None },
         group: if rng.chance(1, 3) { Some(rng.pick(&["staff", "wheel", "adm", "root", "users"]).to_string()) } else { None },
         flags,
@@ -484,6 +506,17 @@ pub fn rand_cfg(rng: &mut Rng, max_files: u64, max_len: usize) -> Cfg {
             let mut f = rand_file(rng, &mut used, max_len);
             f.dest = twin;
             cfg.files.push(f);
+        }
+    }
+    // a packaged file that bears the name of the archive's end marker
+    if max_files > 0 && rng.chance(1, 10) {
+        for name in ["/TRAILER!!!", "/usr/TRAILER!!!"] {
+            if rng.chance(2, 3) && !used.contains(&name.to_string()) {
+                used.push(name.to_string());
+                let mut f = rand_file(rng, &mut used, max_len);
+                f.dest = name.into(); f.mode = Some(0o100644); f.mode_wide = None; f.link = None;
+                cfg.files.push(f);
+            }
         }
     }
     if max_files > 0 && rng.chance(1, 3) {
